@@ -16,6 +16,18 @@ Proof. intros Ha Hk Ho. unfold a3get, a3build. rewrite nth_build by auto. rewrit
 Lemma nth_repeat' {A} (x dflt : A) G g : (g < G)%nat -> nth g (repeat x G) dflt = x.
 Proof. revert g. induction G; intros g Hg. lia. destruct g; simpl. reflexivity. apply IHG. lia. Qed.
 
+(* S_list assembled from the all-explicit list: generic in the scalar operations *)
+Lemma S_list_from_eq {T B} (Op : Ops T B) n no G ph L inv Ss :
+  S_list Op n no G ph L inv Ss = S_list_from no inv Ss (S_list Op n no G ph L [] []).
+Proof.
+  unfold S_list, S_list_from, build. apply map_ext_in. intros o Ho. apply in_seq in Ho.
+  destruct (nth o inv false); simpl. reflexivity.
+  rewrite (nth_indep _ [] (S_select Op n (nth 0 [] false) (nth 0 [] []) (T_of Op n (nth 0 ph (c0 Op)) L) G))
+    by (rewrite map_length, seq_length; lia).
+  rewrite (map_nth (fun o => S_select Op n (nth o [] false) (nth o [] []) (T_of Op n (nth o ph (c0 Op)) L) G)).
+  rewrite seq_nth by lia. simpl. destruct o; reflexivity.
+Qed.
+
 (* left-cancellable = injective as a linear map on matrices *)
 Definition fleft_cancel (n : nat) (M : fmat) : Prop :=
   forall X Y, feq n (fmul n M X) (fmul n M Y) -> feq n X Y.
